@@ -36,7 +36,7 @@ class Contract:
                  exc_ensures=None, receiver_from_call=False, lemma_facts=None, harness=None, returns=None, constructor=False,
                  variant=None, new_obj=None, init_obj=None, yields=None,
                  yield_may_throw=None, generator=False, expected_dead=(),
-                 free_vars=None, store_hooks=None):
+                 free_vars=None, store_hooks=None, loop_ghost=None):
         self.file, self.qualname, self.params = file, qualname, params
         self.requires, self.ensures, self.raises = requires, ensures, raises or {}
         self.loops = loops or {}
@@ -66,7 +66,8 @@ class Contract:
         # exit points that are unreachable under this contract's precondition: [(label, text the statement starts with)]
         self.expected_dead = tuple(expected_dead)
         self.free_vars = free_vars or {}      # closure variables of a nested function: name -> type spec
-        self.store_hooks = store_hooks or {}  # name -> handler(eng, st, key, value, node) for ``name[key] = value``
+        self.store_hooks = store_hooks or {}
+        self.loop_ghost = loop_ghost or {}    # loop ordinal -> ghost variables its body may update (default: all)  # name -> handler(eng, st, key, value, node) for ``name[key] = value``
         if returns is not None and make_result is None:
             def _mk(eng, st, bound, _spec=returns):
                 return make_symbolic(eng, eng.new_base("ret:" + qualname), _spec, st, set())
